@@ -18,6 +18,18 @@ pub fn oracle_c06(seed: u64, n: usize, tier: &str, out: &mut dyn Write) {
 pub fn oracle_c07(seed: u64, n: usize, tier: &str, out: &mut dyn Write) {
     c07::run(seed, n, tier, out)
 }
+pub fn gen_cases(kind: &str, seed: u64, n: usize, tier: &str, out: &mut dyn Write) {
+    match kind {
+        "c06" => c06::gen_cases(seed, n, tier, out),
+        _ => c07::gen_cases(seed, n, tier, out),
+    }
+}
+pub fn run_case(c: &Case, out: &mut dyn Write) {
+    match c.get("kind") {
+        Some("c06") => c06::run_case(c, out),
+        _ => c07::run_case(c, out),
+    }
+}
 pub fn oracle_replay(cases: &[Case], out: &mut dyn Write) {
     for c in cases {
         match c.get("kind") {
